@@ -17,6 +17,7 @@ import (
 type Gen struct {
 	R       *lib.Rand
 	W       *World
+	probed  bool
 	Prop    string // "C04" or "C08": shifts the weights
 	AvoidKF bool   // avoid the triggers of the known findings (old-rule refunds, external-token bridge calls)
 }
@@ -211,10 +212,26 @@ func (g *Gen) tokList(a, c int, erc bool) [][2]int64 {
 func (g *Gen) Next(step int) Op {
 	w := g.W
 	r := g.R
-	if len(w.disabledTok) > 0 && (r.Chance(40) || len(g.calls()) > 0) { // re-enable soon
+	if len(w.disabledTok) > 0 {
+		// a disabled pair makes refunds to ERC-20 impossible (ConvertCoin refuses, the refund panics): a pair stays
+		// disabled for exactly one probing conversion, then it is enabled again
 		for t := range w.Toks {
 			if w.disabledTok[t] {
-				return Op{K: "Toggle", T: t}
+				if g.probed {
+					g.probed = false
+					return Op{K: "Toggle", T: t}
+				}
+				g.probed = true
+				a := g.user()
+				switch r.Pick(3) {
+				case 0:
+					return Op{K: "ConvertCoin", T: t, A: a, B: a, X: g.amt(g.bankBal(a, t, 0), 5000)}
+				case 1:
+					return Op{K: "ConvertERC20", T: t, A: a, B: a, X: g.amt(g.ercBal(a, t), 5000)}
+				default:
+					c := g.chainOf(t)
+					return Op{K: "SendToFx", C: c, T: t, A: a, X: int64(10 + r.Intn(500)), Tgt: 1}
+				}
 			}
 		}
 	}
